@@ -319,6 +319,71 @@ def run_scenarios(fa, res, codec, tier):
         check_read(res, fa, "read", info, io.BytesIO(fo.getvalue()), cont.expected(nd_, dd_, [{"a": 1}, {"a": -64}]), canon.canonical((nd_, dd_)), codec, {})
     except Exception as e:
         res.add(Violation("c04.write", f"write-raised:{type(e).__name__}:scenario", f"schema with a lone surrogate in a doc attribute: {type(e).__name__}: {e}", info))
+    # (9) records handed over as a one-shot iterable, with and without validation
+    small9 = [{"i": i, "b": bytes([i]), "s": "r%d" % i} for i in range(7)]
+    for validator in (False, True):
+        for kind9 in ("generator", "iterator", "map-object", "reader"):
+            info = {"schema": BS, "records": "<7 small>", "codec": codec, "sync_interval": 16000, "axis": f"scenario:one-shot-{kind9}-validator-{validator}"}
+            note_case(info)
+            keys.add(("one-shot", kind9, validator))
+            res.evals += 1
+            if kind9 == "generator":
+                src = (copy.deepcopy(r) for r in small9)
+            elif kind9 == "iterator":
+                src = iter(copy.deepcopy(small9))
+            elif kind9 == "map-object":
+                src = map(dict, small9)
+            else:
+                f0 = io.BytesIO()
+                fa.writer(f0, copy.deepcopy(BS), copy.deepcopy(small9), sync_marker=marker)
+                src = fa.reader(io.BytesIO(f0.getvalue()))
+            fo = io.BytesIO()
+            try:
+                fa.writer(fo, copy.deepcopy(BS), src, codec=codec, validator=validator, sync_marker=marker)
+                got = list(fa.reader(io.BytesIO(fo.getvalue())))
+            except Exception as e:
+                got = f"{type(e).__name__}: {e}"
+            if got != small9:
+                res.add(Violation("c04.read", "records-differ:one-shot-iterable", f"7 records given as a {kind9} (validator={validator}) read back as {short(got, 200)}", info))
+    # (10) what a reader reports belongs to the caller: editing it must not change how the next reader decodes
+    fo = io.BytesIO()
+    fa.writer(fo, copy.deepcopy(BS), copy.deepcopy(small9), codec=codec, sync_marker=marker)
+    data10 = fo.getvalue()
+    info = {"schema": BS, "records": "<7 small>", "codec": codec, "sync_interval": 16000, "axis": "scenario:reported-schema-edited-by-caller"}
+    note_case(info)
+    keys.add(("reported-schema-edited",))
+    res.evals += 1
+    try:
+        r1 = fa.reader(io.BytesIO(data10))
+        first = list(r1)
+        ws = r1.writer_schema
+        ws["fields"].append({"name": "added_by_caller", "type": "long", "default": 0})
+        ws["fields"][0]["type"] = "string"
+        r1.metadata["avro.codec"] = "no-such-codec"
+        r2 = fa.reader(io.BytesIO(data10))
+        second = list(r2)
+        blocks = [x for b in fa.block_reader(io.BytesIO(data10)) for x in b]
+    except Exception as e:
+        first, second, blocks = small9, f"{type(e).__name__}: {e}", None
+    if first != small9 or second != small9 or (blocks is not None and blocks != small9):
+        res.add(Violation("c04.read", "records-differ:reported-schema-edited-by-caller", f"after the caller edited the writer_schema / metadata a first reader reported, a second reader of the same bytes returned {short(second, 200)}", info))
+    # (11) one block far beyond the sizes above (64 MiB + 1), under deflate and null
+    if codec in ("deflate", "null"):
+        info = {"schema": BS, "records": "<one record of 64 MiB + 1>", "codec": codec, "sync_interval": 16000, "axis": "scenario:block-of-64MiB+1"}
+        note_case(info)
+        keys.add(("64MiB",))
+        res.evals += 1
+        blob = bytes(1024) * 65536 + b"!"
+        fo = io.BytesIO()
+        try:
+            fa.writer(fo, copy.deepcopy(BS), [{"i": 1, "b": blob, "s": "x"}, {"i": 2, "b": b"", "s": "y"}], codec=codec, sync_marker=marker)
+            got = list(fa.reader(io.BytesIO(fo.getvalue())))
+            ok = len(got) == 2 and got[0]["b"] == blob and got[1] == {"i": 2, "b": b"", "s": "y"}
+            why = f"{len(got)} records, first blob length {len(got[0]['b']) if got else None}"
+        except Exception as e:
+            ok, why = False, f"{type(e).__name__}: {e}"
+        if not ok:
+            res.add(Violation("c04.read", "records-differ:block-of-64MiB+1", f"a 64 MiB + 1 record under {codec}: {why}", info))
     res.distinct = len(keys)
     res.sample({"scenarios": sorted(map(str, keys))[:4], "codec": codec})
     return res
@@ -433,7 +498,7 @@ def run_unit(unit, tier):
                     files[iv] = d
             res.sets["file_sizes"] |= {len(v) for v in files.values()}
             for iv in (1, 16000):
-                for lvl in (1, 9):
+                for lvl in ((1, 9) if codec == "null" else (0, 1, 2, 3, 4, 5, 6, 7, 8, 9) if codec in ("deflate", "xz") else (1, 2, 5, 9)):
                     one(res, fa, raw, copy.deepcopy(raw), node, defs, recs, exp, exp_canon, codec, iv, f"level{lvl}", marker, level=lvl, keys=keys)
                 for mname, md in (("ascii", {"k": "v"}), ("unicode", {"ключ€": "значение𝄞", "empty": ""})):
                     one(res, fa, raw, copy.deepcopy(raw), node, defs, recs, exp, exp_canon, codec, iv, "meta-" + mname, marker,
